@@ -46,11 +46,15 @@ pub fn route_of(r: u8) -> Route {
 fn case_strategy(t: Tier) -> BoxedStrategy<Case> {
     let max_k = t.pick(9u32, 12u32);
     (
-        prop_oneof![
-            6 => prog::ops_strategy(30, 3, 0),
-            2 => prog::ops_strategy(60, 6, 1),
-            1 => prog::ops_strategy(8, 2, 6),
-        ],
+        prog::with_pi_burst(
+            prop_oneof![
+                6 => prog::ops_strategy(30, 3, 0),
+                2 => prog::ops_strategy(60, 6, 1),
+                1 => prog::ops_strategy(8, 2, 6),
+            ]
+            .boxed(),
+            150,
+        ),
         proptest::option::weighted(0.6, (3u32..=max_k, -8i8..=8)),
         any::<u16>(),
         proptest::collection::vec(any::<u8>(), 0..40),
@@ -335,6 +339,12 @@ fn check(ctx: &Ctx, c: &Case) -> PResult {
     }
     if snap.public_inputs.iter().any(|(_, v)| *v == F::zero()) {
         ctx.label("zero-valued PI");
+    }
+    match pi.len() {
+        0..=15 => {}
+        16..=31 => ctx.label("16-31 public inputs"),
+        32..=63 => ctx.label("32-63 public inputs"),
+        _ => ctx.label("64+ public inputs"),
     }
     if n > 4 {
         ctx.nontrivial_json(&(layout.digest().to_vec(), cap, c.route, c.route2, c.prover_bytes, c.verifier_bytes));
